@@ -132,6 +132,29 @@ def layer_path_events(tf, tfl, ctx, rng):
               "cols": [[int(round(float(v) * KDEN)) for v in Kp[:, 0]]], "oden": ODEN,
               "out": int(round(float(sum(pw.losses)) * ODEN)), "tolu": 8, "site": SITE, "call": {"path": "pwl layer.losses"}})
   ctx.count(3)
+  # every PWL regularizer through the layer's ("name", l1, l2) argument, cyclic and not, one and two units: the layer
+  # has to hand its own options (is_cyclic) on to the regularizer it constructs
+  for reg in ("laplacian", "hessian", "wrinkle"):
+    for cyclic in (False, True):
+      for units in (1, 2):
+        nk = int(rng.integers(4, 7))
+        a1 = Fraction(int(rng.integers(1, 9)), 4)
+        a2 = Fraction(int(rng.integers(0, 9)), 4)
+        try:
+          lay = tfl.layers.PWLCalibration(input_keypoints=[float(i) for i in range(nk)], units=units, is_cyclic=cyclic,
+                                          kernel_regularizer=(reg, float(a1), float(a2)))
+          lay.build((None, units))
+          Kl = (rng.integers(-16, 17, size=tuple(lay.kernel.shape)) / float(KDEN)).astype(np.float32)
+          lay.kernel.assign(Kl)
+          val = float(sum(lay.losses))
+        except Exception as ex:  # pylint: disable=broad-except
+          evs.append({"ev": "Raised", "site": SITE, "exc": repr(ex)[:300], "call": {"reg": reg, "cyclic": cyclic, "path": "pwl layer"}})
+          continue
+        evs.append({"ev": "Pwl", "reg": reg, "cyclic": cyclic, "l1": rat(a1), "l2": rat(a2), "kden": KDEN,
+                    "cols": [[int(round(float(v) * KDEN)) for v in Kl[:, u]] for u in range(units)], "oden": ODEN,
+                    "out": int(round(val * ODEN)), "tolu": max(8, int(abs(val) * ODEN * 2e-5) + 4), "site": SITE,
+                    "call": {"path": "pwl layer.losses", "reg": reg, "cyclic": cyclic, "units": units}})
+        ctx.count(1, nontrivial_key=("pwl-layer", reg, cyclic, units))
   return evs
 
 
